@@ -187,7 +187,8 @@ impl TransformTo<FriUnsentCommitmentVerifier> for stark_proof::FriUnsentCommitme
 
 impl TransformTo<PowUnsentCommitmentVerifier> for stark_proof::ProofOfWorkUnsentCommitment {
     fn transform_to(self) -> PowUnsentCommitmentVerifier {
-        PowUnsentCommitmentVerifier { nonce: self.nonce.to_u64_digits()[0] }
+        // The parser guarantees that the nonce fits in 64 bits; zero has no digits.
+        PowUnsentCommitmentVerifier { nonce: self.nonce.to_u64_digits().first().copied().unwrap_or(0) }
     }
 }
 
